@@ -1040,6 +1040,10 @@ func init() {
 			}
 			g.ft.NamedSlice = g.r.P(0.3)
 			g.ft.DecoIntroduce = g.r.P(0.3)
+			// registrations rejected for a cycle (also ones with Group + As)
+			// are inputs that must change nothing, too
+			g.ft.Wild = []float64{0, 0.15, 0.4}[g.r.Intn(3)]
+			g.ft.As = g.r.P(0.6)
 		}, Mix{Scope: 2, Provide: 8, Decorate: 3, Invoke: 8, VisStr: 4}),
 		Eval:      evalC14,
 		QuickRuns: 50_000,
